@@ -16,6 +16,7 @@ from mc.runner import Ctx
 from mc.explore import explore, Chooser
 from mc.seams import ScriptedRandom, MENU_QUICK, MENU_FULL
 from mc.oracles import padding as O
+from checks import _c09_hist as H
 
 PROP = "C09"
 LEVEL = "exploration"
@@ -34,7 +35,13 @@ RULE = (
     "lens pair (quick: second len shortest/longest/equal), 6 proportions, 3 modes, module and functional; eval mode. Tensor contents are distinct "
     "seed-shuffled integers (never equal to the pad value), so any leak or shift is visible. Cases are "
     "distinct by construction (duplicate-free products); non-trivial = some row needs padding / is an empty "
-    "slice / mask neither empty nor full / some draw non-zero."
+    "slice / mask neither empty nor full / some draw non-zero. Object histories (checks/_c09_hist.py): on ONE "
+    "PadVariable / ChunkBySlices / PadMaskedSequence / RandomShift object, every sequence of 2 steps (thorough: "
+    "and of 3; quick: 3 steps over a reduced alphabet) from the alphabet N in {1,2} x T in {2,3,5} (RandomShift "
+    "{2,4}) x lens given/omitted (ChunkBySlices) x {no change, mode reassigned, value/padding_value reassigned, "
+    "batch_first toggled, train/eval switched}, for every initial mode/layout; each call's rows reach the first "
+    "and last frame and beyond and must equal the single-sequence oracle (RandomShift also the functional fed "
+    "the same scripted draws); results kept from earlier steps must stay unchanged and no argument may be modified."
 )
 ASSUMPTIONS = [
     "small scope: N<=2 per call for pair interactions (plus one ragged batch of all configurations), T=4 (0..3, 6 "
@@ -49,6 +56,9 @@ ASSUMPTIONS = [
     "reflect padding can be ambiguous for short sequences)",
     "uniform draws only from the menu {0, 1/4, 3/4, 1-2^-24} (quick) / {0, 2^-24, 1e-6, 1/4, 1/2, 3/4, 1-2^-24}",
     "exact comparison (contents are small integers; float32 and int64 only); TorchScript/CUDA not explored",
+    "object histories: at most 3 calls per object, attributes reassigned only to other legal values (mode, value, "
+    "padding_value, batch_first) and Module.train()/eval(); RandomShift histories use prop=1.0 and one fixed "
+    "draw pattern per step; device changes and TorchScript-compiled modules are not part of the histories",
 ]
 BUDGET_S = {"quick": 240, "thorough": 2400}
 
@@ -573,6 +583,12 @@ def shards(tier, seed):
                    "ch": {"constant": 6, "replicate": 6, "reflect": 2}}
         t1 = {"pv": {"constant": 1, "replicate": 1, "reflect": 1}, "ch": {"constant": 2, "replicate": 1, "reflect": 1}}
     # cheap parts first, so that a wall budget that runs out can never drop a whole API
+    for kind in H.KINDS:
+        of = {"ChunkBySlices": 8, "PadVariable": 2, "PadMaskedSequence": 2, "RandomShift": 2}[kind] \
+            if tier == "thorough" else 1
+        for init in H.inits(kind):
+            for i in range(of):
+                out.append({"pass": "hist", "kind": kind, "init": init, "i": i, "of": of})
     for N in (1, 2, 3) if tier == "thorough" else (1, 2):
         for T in range(0, 5):
             out.append({"pass": "pms", "N": N, "T": T})
@@ -601,6 +617,8 @@ def run_shard(spec, tier, seed):
         rs_pass(ctx, spec["mode"], spec["props"], tier, seed)
     elif spec["pass"] == "pms":
         pms_pass(ctx, spec["N"], spec["T"], seed)
+    elif spec["pass"] == "hist":
+        H.hist_pass(ctx, spec["kind"], spec["init"], tier, seed, spec["i"], spec["of"])
     else:
         raise ValueError(spec)
     return ctx
@@ -642,6 +660,8 @@ def replay(case):
             res = e
         rs_judge(ctx, case["mode"], props, case["value"], x, lens, menu, case["via"], ch.choices, res,
                  case["training"])
+    elif part == "hist":
+        H.replay(ctx, case)
     elif part == "rs-ctor":
         ctx.case(1, 1)
         try:
